@@ -310,6 +310,24 @@ impl Ctx {
 			_ => json!({"ep": ep, "res": "skip", "site": "", "msg": "unknown entry point", "pre": "", "post": "", "us": 0, "peak": 0}),
 		};
 		let post = if needs_wallet { digest(&self.world, "w1") } else { "-".into() };
+		if ep == "post_foreign" && post != pre {
+			// an accepted request consumed the slate of this instance (a later delivery of it would only
+			// ever meet the duplicate check): cancel what it left pending, so that every case is
+			// decided on its own by the code behind the decoder
+			let pending: Vec<u32> = match self.world.with("w1", |wi, _| {
+				Ok(wi
+					.tx_log_iter()
+					.filter(|t| !t.confirmed && t.tx_type == libwallet::TxLogEntryType::TxReceived)
+					.map(|t| t.id)
+					.collect::<Vec<u32>>())
+			}) {
+				vharness::world::Outcome::Ok(v) => v,
+				_ => vec![],
+			};
+			for id in pending {
+				let _ = self.world.cancel("w1", Some(id), None);
+			}
+		}
 		if let Some(p) = stored_path {
 			let _ = std::fs::remove_file(p);
 		}
